@@ -16,4 +16,5 @@ def run(rep, W, ctx):
     S.c01_key(rep, W)                # "returns the child of p if one exists": a version is stored under, and looked up by, the parent it was submitted with
     S.s_uuidcodec(rep, W)            # the SQLite child lookup `parent_version_id = ?` matches exactly the stored parent, nil included
     H.c14_tables(rep, W, modules=("get_child_version",))   # found / 404 / 410 and "never seen -> 404" as answered over HTTP
+    H.handler_args(rep, W)           # the parent id asked about is the one in the URL, the client the validated header's
     H.route_params_plain(rep, W)     # the two endpoints take the parent id from the URL the same way: no route pattern narrows one of them
